@@ -46,9 +46,16 @@ def build_gnodes(date: str):
     by_group = extract.aggregation_dicts("aggregate_by_group")
     by_pid = extract.aggregation_dicts("aggregate_by_p_id")
     nodes = []
+    import paramsio
+    import t1
+    kind_, env_model = paramsio.model_envs([o])[0]
     for n in nx.lexicographical_topological_sort(dag):
         if n.endswith("_params"):
-            nodes.append({"name": n, "kind": {"k": "opaque"}})
+            g = n[:-7]
+            if kind_ == "ok" and g in env_model:
+                nodes.append({"name": n, "kind": {"k": "const", "v": {"t": "tree", "v": t1.enc_tree(env_model[g])}}})
+            else:
+                nodes.append({"name": n, "kind": {"k": "opaque"}})
             continue
         if n not in fno:
             nodes.append({"name": n, "kind": {"k": "input", "a": input_abs(n, TYPES_INPUT_VARIABLES.get(n))}})
@@ -88,7 +95,7 @@ def sign_table(date: str):
     out = json.loads(common.driver([json.dumps({"op": "sign_table", "nodes": nodes}, ensure_ascii=False)])[0])
     if "ok" not in out:
         raise RuntimeError(str(out)[:400])
-    return dict(out["ok"]), nodes
+    return dict(out["ok"]), nodes, [tuple(x) for x in out.get("le", [])]
 
 
 # ---------------------------------------------------------------------------------
@@ -173,7 +180,7 @@ def run(tier: str) -> int:
     unknown = {}
     for date in dates:
         try:
-            table, nodes = sign_table(date)
+            table, nodes, les = sign_table(date)
         except Exception as ex:  # noqa: BLE001
             r.broke("build", f"sign analysis at {date}", str(ex)[:500])
             continue
@@ -184,6 +191,13 @@ def run(tier: str) -> int:
                 r.oblige(f"{t} >= 0 ({date})", True, a)
             else:
                 unknown.setdefault(t, []).append(date)
+        for a, b in CAPS:
+            if a in table:
+                r.case({"static-cap": [a, b], "date": date})
+                if (a, b) in les:
+                    r.oblige(f"{a} <= {b} ({date})", True, "absLeArg")
+                else:
+                    unknown.setdefault(f"{a} <= {b}", []).append(date)
         r.extra.setdefault("sign_table_summary", {})[date] = {
             "nodes": len(nodes), "nonneg": sum(1 for v in table.values() if v in ("nonneg", "pos", "zero")),
             "bool": sum(1 for v in table.values() if v == "bool"), "unknown": sum(1 for v in table.values() if v == "any")}
